@@ -29,8 +29,9 @@ fn check_len(pat: &Pattern<SupportLang>, n: &N, s: S, sigs: &mut Vec<(String, St
       let total = n.range().len();
       if len > total {
         sigs.push((format!("C03/match-len/exceeds-node/{}", s.name()), format!("get_match_len={len} but the node has {total} bytes")));
-      } else if len == 0 && total > 0 {
-        sigs.push((format!("C03/match-len/zero/{}", s.name()), "get_match_len=0 for a non-empty matched node".into()));
+      } else if len == 0 {
+        // an empty matched prefix neither exceeds the node nor splits a child: legal when everything in the
+        // node may be skipped at this strictness (pattern `if $$$V` under ast on an ERROR node holding `*`)
       } else {
         let end = start + len;
         if !n.dfs().any(|d| d.range().end == end) {
